@@ -717,7 +717,8 @@ Definition nth_state (t0 : Z) (ops : list op) (k : nat) : state := run (init t0 
 """
 
 
-HISTORY_LIMIT_S = 120.0          # one history normally takes well under a second
+HISTORY_LIMIT_S = 45.0           # one history normally takes well under a second
+MAX_HANGS = 3                    # after that many, the remaining histories are not started (the finding is established)
 CASE_MEMORY_BYTES = 4 << 30      # address-space limit of the process that runs one history
 
 
@@ -836,7 +837,10 @@ def run_isolated_many(jobs: List[Tuple[str, Dict[str, Any]]], workers: int) -> L
     results: List[Optional[Dict[str, Any]]] = [None] * len(jobs)
     running: Dict[int, Any] = {}
     nxt = 0
+    hangs = 0
     while nxt < len(jobs) or running:
+        if hangs >= MAX_HANGS:
+            nxt = len(jobs)                      # do not start more; what runs keeps its own deadline
         while nxt < len(jobs) and len(running) < workers:
             pc, cc = ctxm.Pipe(duplex=False)
             pr = ctxm.Process(target=_child, args=(cc, jobs[nxt]), daemon=True)
@@ -861,6 +865,8 @@ def run_isolated_many(jobs: List[Tuple[str, Dict[str, Any]]], workers: int) -> L
                 results[i] = _empty_result(jobs[i][1], hang={"after_steps": None, "limit_s": deadline, "killed": True})
                 done.append(i)
         for i in done:
+            if results[i] is not None and (results[i].get("hang") or results[i].get("crash")):
+                hangs += 1
             pr, pc, _ = running.pop(i)
             pc.close()
             pr.join(5)
@@ -1345,12 +1351,12 @@ def check_histories(ctx) -> None:
         ctx.stats[f"histories_{kind}"] = len(bad_runs)
         if bad_runs:
             first = min(bad_runs, key=lambda r: len(r["hist"]["ops"]))
-            limit = 20.0
+            limit = 12.0
 
             def still(h: Dict[str, Any], kind=kind) -> bool:
                 return bool(run_isolated(os.path.join(ctx.scratch, "shrink"), dict(h, _limit_s=limit)).get(kind))
 
-            small = shrink(ctx, first["hist"], still, budget=10) if still(first["hist"]) else first["hist"]
+            small = shrink(ctx, first["hist"], still, budget=8) if still(first["hist"]) else first["hist"]
             ctx.violation(f"history-{kind}",
                           (f"an operation of the history did not return within its time limit: {first[kind]}" if kind == "hang"
                            else f"the library failed outside its own error handling while running the history: {first[kind]}"),
